@@ -181,7 +181,10 @@ fn is_decimal(s: &str) -> bool {
 /// location rule for one path that iceoryx2 touched on behalf of the domain (root, prefix);
 /// `is_dir`: Some(true/false) when known (scan), None when only the path is known (trace)
 fn location_rule(path: &str, is_dir: Option<bool>, root: &str, prefix: &str, harness_dirs: &[String]) -> Result<(), String> {
-    if let Some(name) = path.strip_prefix("/dev/shm/") {
+    // the harness keeps its run directories (and with them the domain roots) on tmpfs under
+    // /dev/shm/verif-run: a path under the root is a file of the root, not a shm object
+    let under_root = path == root || path.starts_with(&format!("{root}/"));
+    if let Some(name) = path.strip_prefix("/dev/shm/").filter(|_| !under_root) {
         if name.is_empty() || name.starts_with(prefix) {
             return Ok(());
         }
